@@ -208,6 +208,7 @@ pub fn request_requirements(spec: &ReqSpec) -> Option<(Vec<Req>, Vec<Req>)> {
             default_operation: _,
             error_option,
             test_option,
+            order: _,
         } => {
             match (*target)? {
                 Ds::Running => hard.push(Req::Cap(CAP_WRITABLE_RUNNING)),
@@ -482,9 +483,9 @@ pub fn spec_strategy() -> BoxedStrategy<ReqSpec> {
         2 => filter_opt().prop_map(|filter| ReqSpec::Get { filter }),
         3 => (ds(), filter_opt()).prop_map(|(s, filter)| ReqSpec::GetConfig { source: Some(s), filter }),
         6 => (ds(), prop_oneof![Just(CfgOrUrl::Config("<top/>".into())), url_strategy().prop_map(CfgOrUrl::Url)],
-              prop::option::of(0u8..3), prop::option::of(0u8..3), prop::option::of(0u8..3))
-            .prop_map(|(t, s, d, e, x)| ReqSpec::EditConfig {
-                target: Some(t), source: Some(s), default_operation: d, error_option: e, test_option: x }),
+              prop::option::of(0u8..3), prop::option::of(0u8..3), prop::option::of(0u8..3), 0u8..120)
+            .prop_map(|(t, s, d, e, x, order)| ReqSpec::EditConfig {
+                target: Some(t), source: Some(s), default_operation: d, error_option: e, test_option: x, order }),
         3 => (ds(), prop_oneof![ds().prop_map(DsOrCfg::Ds), Just(DsOrCfg::Config("<top/>".into()))])
             .prop_map(|(t, s)| ReqSpec::CopyConfig { target: Some(t), source: Some(s) }),
         3 => prop_oneof![ds().prop_map(DsOrUrl::Ds), url_strategy().prop_map(DsOrUrl::Url)]
